@@ -696,7 +696,34 @@ fn run_replay(r: &C16Replay, stats: &mut Stats, sample: Option<&mut Vec<String>>
         // ---- mutate, then re-pull
         let elems: Vec<Node> = x.descendants(doc).take(NODE_LIMIT).filter(|n| x.is_element(*n)).collect();
         if let Some(e) = rng.pick_opt(&elems).copied() {
-            match rng.below(7) {
+            match rng.below(10) {
+                7 => {
+                    // text built from pieces: adjacent text nodes exist only while consolidation is off;
+                    // pieces that form markup-significant sequences across the boundary
+                    x.set_text_consolidation(false);
+                    for _ in 0..rng.range(2, 3) {
+                        let piece = rng.pick_str(&["]]", ">", "]", "]>", "a\rb", "\r", " ", "x", "&", "<", "]]>"]);
+                        let _ = x.append_text(e, piece);
+                    }
+                    if rng.pct(70) {
+                        x.set_text_consolidation(true);
+                    }
+                    log.push("append adjacent text pieces".into());
+                    stats.inc("probe/c16_adjacent_text_pieces");
+                }
+                8 => {
+                    // whitespace handling is inherited: a subtree observed later may lie below this
+                    let sp = x.xml_space_name();
+                    x.set_attribute(e, sp, rng.pick_str(&["preserve", "preserve", "default"]));
+                    log.push("set xml:space".into());
+                    stats.inc("probe/c16_xml_space_set");
+                }
+                9 => {
+                    // character data without markup characters but with characters that need a reference
+                    let _ = x.append_text(e, rng.pick_str(&["a\rb", "\r", "tab\tnl\ncr\r", "\u{85}\u{2028}"]));
+                    log.push("append_text with CR".into());
+                    stats.inc("probe/c16_text_with_cr");
+                }
                 5 => {
                     // an empty text node (the parser never makes one, the API does)
                     let t = x.new_text("");
